@@ -7,7 +7,7 @@ VERIF = os.path.dirname(os.path.dirname(os.path.abspath(__file__)))
 REPO = os.environ.get("VERIF_REPO", "/repo")
 BUILD = os.path.join(VERIF, "build")
 SPEC = os.path.join(VERIF, "spec")
-TMP = os.path.join(BUILD, "tmp")
+TMP = os.path.join(BUILD, "tmp", str(os.getpid()))     # per process: checks may run concurrently
 JAR = "/opt/veriftools/tla/tla2tools.jar:/opt/veriftools/tla/CommunityModules-deps.jar"
 VH = os.path.join(BUILD, "target-harness", "release", "vh")
 
@@ -92,6 +92,7 @@ def build_cli():
 def tlc(module, cfg, name, workers=8, env=None, timeout=1200, extra=None, heap="8g", coverage=False, simulate=None):
     """Run TLC on spec/<module>.tla with spec/<cfg>. Returns dict(out=path, states=, distinct=, ok=, text=)."""
     ensure_dirs()
+    name = "%s.p%d" % (name, os.getpid())
     meta = os.path.join(BUILD, "tlc", name)
     shutil.rmtree(meta, ignore_errors=True)
     os.makedirs(meta, exist_ok=True)
@@ -217,7 +218,7 @@ def _ev(line):
 def validate(trace_path, module, cfg, name, parallel=8, boundary=("Render",), max_events=6000, timeout=1500):
     """Run the trace specification over the recorded trace (sharded). Returns
     (verdicts, stats) where verdicts is a list of dicts {idx,id,variant,fails:[{p,w}]}."""
-    prefix = os.path.join(BUILD, "tlc", name + ".shard")
+    prefix = os.path.join(BUILD, "tlc", "%s.p%d.shard" % (name, os.getpid()))
     for old in glob.glob(prefix + ".*"):
         os.remove(old)
     paths, nlines = shard_trace(trace_path, parallel, prefix, boundary, max_events)
@@ -289,5 +290,14 @@ def write_evidence(pid, tier, seed, level, coverage, wall, violations, assumptio
 
 
 def clean_tmp():
+    """Remove this process' scratch files (never another check's: they may be running at the same time)."""
     shutil.rmtree(TMP, ignore_errors=True)
-    os.makedirs(TMP, exist_ok=True)
+    import glob
+    for f in glob.glob(os.path.join(BUILD, "tlc", "*.p%d*" % os.getpid())):
+        if os.path.isdir(f):
+            shutil.rmtree(f, ignore_errors=True)
+        else:
+            try:
+                os.remove(f)
+            except OSError:
+                pass
